@@ -34,7 +34,7 @@ def spRaw (cfg : SWCfg) (c : Col) (cs : Choices) (es : PageEntries) : Bytes :=
 def spComp (codec : Nat) (compress : Bytes → Bytes) (raw : Bytes) : Bytes := if codec = 0 then raw else compress raw
 
 def spStats (cfg : SWCfg) (c : Col) (es : PageEntries) : List (Nat × TVal) :=
-  if cfg.withStats then [(5, statsT ((pageStats c es).result c.ty c.isRequired))] else []
+  if cfg.withStats then [(5, statsT (cfg.pageStatsResult c es))] else []
 
 def spExtra (cfg : SWCfg) : List (Nat × TVal) := if cfg.withExtras then extraField else []
 
@@ -65,7 +65,7 @@ theorem statsT_dep (r : Option Nat × Option Bytes × Option Bytes) : (statsT r)
   cases a <;> cases b <;> cases c <;> simp [statsT, TVal.dep, depFields]
 
 theorem spHdr_wf (cfg : SWCfg) (c : Col) (es : PageEntries) (u z : Nat) : (spHdr cfg c es u z).WF := by
-  have := statsT_wf ((pageStats c es).result c.ty c.isRequired)
+  have := statsT_wf (cfg.pageStatsResult c es)
   cases hs : cfg.withStats <;> cases he : cfg.withExtras <;>
     simp [spHdr, spDph, spStats, spExtra, extraField, hs, he, TVal.WF, WFFields, tI32, tI64, this]
 
@@ -79,9 +79,9 @@ theorem uvar_length_eq (n : Nat) : (uvar n).length = uvl n + 1 := by
 
 theorem spHdr_need (cfg : SWCfg) (c : Col) (es : PageEntries) (u z : Nat) :
     (spHdr cfg c es u z).need ≤ (spHdr cfg c es u z).enc.length + 2 := by
-  have hs1 := need_le (statsT ((pageStats c es).result c.ty c.isRequired))
-  have hs2 := statsT_dep ((pageStats c es).result c.ty c.isRequired)
-  have hs3 := enc_length_pos (statsT ((pageStats c es).result c.ty c.isRequired))
+  have hs1 := need_le (statsT (cfg.pageStatsResult c es))
+  have hs2 := statsT_dep (cfg.pageStatsResult c es)
+  have hs3 := enc_length_pos (statsT (cfg.pageStatsResult c es))
   rw [statsT_eq] at hs1 hs2 hs3
   simp only [TVal.enc] at hs1 hs3
   cases hs : cfg.withStats <;> cases he : cfg.withExtras <;>
@@ -110,9 +110,9 @@ theorem decPHdr_spHdr (cfg : SWCfg) (c : Col) (es : PageEntries) (u z : Nat) :
   cases hs : cfg.withStats <;> cases he : cfg.withExtras
   · exact ⟨none, by simp [decPHdr, spHdr, spDph, spStats, spExtra, hs, he, spPH, TVal.fieldsOf, getI32, getStruct, List.lookup]⟩
   · exact ⟨none, by simp [decPHdr, spHdr, spDph, spStats, spExtra, extraField, hs, he, spPH, TVal.fieldsOf, getI32, getStruct, List.lookup]⟩
-  · exact ⟨some (statsFields ((pageStats c es).result c.ty c.isRequired)), by
+  · exact ⟨some (statsFields (cfg.pageStatsResult c es)), by
       simp [decPHdr, spHdr, spDph, spStats, spExtra, hs, he, spPH, TVal.fieldsOf, getI32, getStruct, List.lookup, statsT_eq]⟩
-  · exact ⟨some (statsFields ((pageStats c es).result c.ty c.isRequired)), by
+  · exact ⟨some (statsFields (cfg.pageStatsResult c es)), by
       simp [decPHdr, spHdr, spDph, spStats, spExtra, extraField, hs, he, spPH, TVal.fieldsOf, getI32, getStruct, List.lookup, statsT_eq]⟩
 
 theorem checkPage_spPH (u z n : Nat) (so : Option (List (Nat × TVal))) (d r : Bool) : checkPage (spPH u z n so) d r = true := by
